@@ -77,6 +77,21 @@ def gen_section(r, tok, kind=None, paths=None, **kw):
     p = r.choice(paths)
     q = r.choice([x for x in paths if x != p])
     hunks = []
+    if kind == "cc":
+        # combined diff of a two-parent merge: two marker columns per line
+        hunks = []
+        for _ in range(r.randint(1, 2)):
+            body = []
+            for _ in range(r.randint(1, 6)):
+                pre = r.choice(["  ", "  ", "- ", " -", "--", "++", "+ ", " +"])
+                body.append((pre, gline(r, tok)))
+            o1, o2, n_ = r.randint(1, 900), r.randint(1, 900), r.randint(1, 900)
+            frag = r.choice(["", " fn f()", " class A:"])
+            c1 = sum(1 for k, _ in body if k[0] in " -")
+            c2 = sum(1 for k, _ in body if k[1] in " -")
+            c3 = sum(1 for k, _ in body if "-" not in k)
+            hunks.append({"header": f"@@@ -{o1},{c1} -{o2},{c2} +{n_},{c3} @@@" + frag, "old_start": o1, "new_start": n_, "frag": frag,
+                          "body": body, "no_newline": False, "cc": True})
     if kind == "diffu":
         # plain `diff -u` output: no `diff --git` line; removed / added lines may themselves begin with
         # "-- " / "++ " (SQL, Lua, Haskell comments), which makes them look like file header lines
@@ -141,6 +156,8 @@ def make_section(kind, p, q, hunks):
     elif kind == "empty":
         head = [f"diff --git a/{p} b/{p}", "new file mode 100644", "index 0000000..e69de29"]
         old = "/dev/null"
+    elif kind == "cc":
+        head = [f"diff --cc {p}", "index 1111111,2222222..3333333", f"--- a/{p}", f"+++ b/{p}"]
     elif kind == "diffu":
         head = [f"--- a/{p}\t2020-01-01 00:00:00.000000000 +0000", f"+++ b/{p}\t2020-01-02 00:00:00.000000000 +0000"]
         old, new = "a/" + p, "b/" + p
